@@ -1,10 +1,9 @@
 PROPERTY = "C14"
 LEVEL = "proof"
 LEAN_MODULES = ["CifModel.Props.C14"]
-REQUIRED = ["CifModel.C14_all_continue", "CifModel.C14_refines_spec_partial", "CifModel.C14_skip_current",
-            "CifModel.C14_skip_siblings", "CifModel.C14_end", "CifModel.C14_error_propagates_partial",
-            "CifModel.C14_returns_ok_on_directives", "CifModel.C14_empty_loop", "CifModel.C14_cex_finished",
-            "CifModel.C14_refines_spec_full_is_false"]
+REQUIRED = ["CifModel.C14_all_continue", "CifModel.C14_refines_spec", "CifModel.C14_skip_current",
+            "CifModel.C14_skip_siblings", "CifModel.C14_end", "CifModel.C14_error_propagates",
+            "CifModel.C14_returns_ok_on_directives", "CifModel.C14_empty_loop", "CifModel.C14_cex_finished_pinned"]
 GEN = ["ErrCodes"]
 FAMILIES = ["walk"]
 TRUSTED_BASE = [
@@ -25,9 +24,6 @@ ASSUMPTIONS = [
     "handlers do not modify the CIF during the walk",
 ]
 PARTIAL = [
-    "C14_refines_spec_partial, C14_end, C14_error_propagates_partial assume NoFinished p: the handler program never "
-    "answers the positive code 1 (= CIF_FINISHED); without it the statements are false for the code as it is "
-    "(C14_cex_finished, C14_refines_spec_full_is_false; open finding F32-walk-finished-code)",
     "'handles passed to callbacks are valid for queries' is not a theorem: it is observed by the correspondence run only "
     "(every handle is queried inside every callback under ASan)",
 ]
@@ -36,6 +32,6 @@ LEVEL_TEXT = ("Proof about the executable model Walk.walk, for all CIFs (any sha
               "event tree, all-continue = depth-first flattening with CIF_OK, local SKIP_CURRENT / SKIP_SIBLINGS laws for "
               "every element kind, END / error code = last callback and result, directives never yield an error. The model "
               "is tied to src/cif.c by differential execution with an independent implementation-level oracle.")
-LEVEL_NOTE = ("Partial where the handler answers code 1 (CIF_FINISHED) — open finding F32; handle validity only observed "
-              "under ASan. Trusted: Lean kernel, model transcription (checked by correspondence), Spec/Traversal.lean, harness.")
+LEVEL_NOTE = ("All theorems hold for every handler program (F32 fixed by d1128e2; C14_cex_finished_pinned documents the old "
+              "behaviour); handle validity only observed under ASan. Trusted: Lean kernel, model transcription (checked by correspondence), Spec/Traversal.lean, harness.")
 TECHNIQUE = "Lean 4 proof (structural induction over the nested container type, refinement to a tree semantics) + differential correspondence"
